@@ -23,7 +23,8 @@ class Recorder:
 
     def __init__(self, force_conf=None):
         self.force_conf = force_conf      # explore the scoring oracle's answer space: every score is this value
-        self.t = {k: {} for k in ("strip", "parse", "decomp", "ccount", "mcs_state", "impute", "pp", "conf")}
+        self.t = {k: {} for k in ("strip", "parse", "decomp", "ccount", "mcs_state", "impute", "pp", "conf", "impute_fine")}
+        self.cur = None
         self.trace = []
         self.conflicts = []
         self._undo = []
@@ -74,15 +75,53 @@ class Recorder:
         o_imp = mbm.impute_reaction
 
         def imp(rd, **kw):
+            # also records, per call, what the stages of impute_reaction answered (Model/Impute.v models its control flow)
             k = rd[kw["reaction_col"]]
+            cur = {"issue": rd[kw["issue_col"]] if kw["issue_col"] in rd else "", "carbon": rd.get(kw["carbon_balance_col"]),
+                   "merged": None, "std": None, "cbal": None}
+            stds = list(kw.get("smiles_standardizer") or [])
+
+            def composite(x):
+                try:
+                    out = x
+                    for f in stds:
+                        out = f(out)
+                except Exception as e:
+                    cur["std"] = [x, "fail", str(e)]
+                    raise
+                cur["std"] = [x, "ok", out]
+                return out
+            kw2 = dict(kw); kw2["smiles_standardizer"] = [composite]
+            R.cur = cur
             try:
-                r = o_imp(rd, **kw)
+                r = o_imp(rd, **kw2)
                 R.put("impute", k, ("ok", r[0], list(r[1])))
                 return r
             except Exception as e:
+                if cur["merged"] is None and cur["issue"] == "":
+                    cur["merged"] = ["fail", str(e)]
                 R.put("impute", k, ("fail", str(e)))
                 raise
+            finally:
+                R.cur = None
+                R.put("impute_fine", k, cur)
         self.patch(mbm, "impute_reaction", imp)
+        o_merge = mbm.merge
+
+        def merge_(cset):
+            r = o_merge(cset)
+            if R.cur is not None:
+                R.cur["merged"] = ["ok", r.smiles, [x.name for x in r.rules]]
+            return r
+        self.patch(mbm, "merge", merge_)
+        o_icb = mbm.is_carbon_balanced
+
+        def icb(x, *a, **k):
+            r = o_icb(x, *a, **k)
+            if R.cur is not None:
+                R.cur["cbal"] = [x, bool(r)]
+            return r
+        self.patch(mbm, "is_carbon_balanced", icb)
         o_find = MCSSearch.find
 
         def find(self_, reactions):
@@ -321,7 +360,7 @@ def cached(name, compute):
     """scratch shared between the properties of this engine, keyed by the tree hash of /repo"""
     d = os.path.join(WORK, "pipecache")
     os.makedirs(d, exist_ok=True)
-    p = os.path.join(d, "%s_%s.json" % (name, tree_hash()))
+    p = os.path.join(d, "%s_v2_%s.json" % (name, tree_hash()))   # v2: tables include impute_fine
     if os.path.exists(p):
         try:
             with open(p) as f:
